@@ -656,17 +656,11 @@ fn check_c05(ctx: &Ctx, ti: usize, r: &Ref, case: &Case) -> CaseResult {
         res.fails.push(fail("from_json", "rejected-value", e.clone()));
         return res;
     }
-    match r.encode(&t.name, v) {
-        Ok(e) => res.events = e.events,
-        Err(_) => {
-            // recompute events of the failing reference encoding
-            let mut ev = Events::new();
-            if let Some(x) = &case.expect_err {
-                ev.insert(format!("expect:{}", x.rust_name()));
-            }
-            res.events = ev;
-        }
+    let (_, mut ev) = r.encode_events(&t.name, v);
+    if let Some(x) = &case.expect_err {
+        ev.insert(format!("expect:{}", x.rust_name()));
     }
+    res.events = ev;
     for (op, o) in [("encode_to_vec", &rep.to_vec), ("encode", &rep.into_vec)] {
         if let Out::Panic(m) = o {
             res.fails.push(fail(op, format!("panic:{}", panic_class(m)), m.clone()));
